@@ -70,7 +70,7 @@ def _scenario(ck, rule, fi, consts, label, headers, assume=None, need_no_payload
             if not _clean_abort(u):
                 bad.append((h, m, "aborted=%s dispatched=%d buffer=%s" % (u.aborted, u.handled, u.buf)))
                 break
-            if need_no_payload_read and u.preads:
+            if need_no_payload_read and X.payload_read(u, m):
                 bad.append((h, m, "payload read before the abort"))
                 break
     msg = "%s: all %d header combinations abort without dispatching or buffering%s" % (label, n, " or reading the payload" if need_no_payload_read else "")
@@ -90,11 +90,12 @@ def _limit_tests(fi):
         if not lim:
             continue
         env = {p: 10 for p in lim}
+        env[X.BUF] = b""
         for nm in q.names_in(n.ast):
             if nm != "self":
                 env[nm] = 10 ** 9
         try:
-            pol = bool(q.fold(n.ast, env))
+            pol = bool(X.xfold(n.ast, env))
         except q.NotFoldable:
             raise AnalysisError("%s: size-limit test %s is not a plain comparison" % (fi.qualname, q.unparse(n.ast)))
         out.append((n, pol, lim[0]))
@@ -153,9 +154,11 @@ def rule_size(ck, rf, hm, consts):
             seen = X.run_frame(rf, dict(consts, **{X.BUF: None}), h=0x82, m=code)
             views = set()
             for env, u in X.frame_states(seen, node):
-                for nm in q.names_in(node.ast):
-                    if nm == "self":
+                callees = {id(x.func) for x in ast.walk(node.ast) if isinstance(x, ast.Call)}
+                for y in ast.walk(node.ast):
+                    if not isinstance(y, ast.Name) or y.id == "self" or id(y) in callees:
                         continue
+                    nm = y.id
                     views.add(env[nm] if nm in env else (X._tag_get(u.tags, nm) or "?"))
             is_ext = lambda v: isinstance(v, tuple) and v and v[0] == "extlen"
             if any(v == "?" for v in views):
@@ -196,9 +199,9 @@ def rule_size(ck, rf, hm, consts):
                     if exits and len({u.aborted for u in exits}) > 1:
                         raise AnalysisError("_receive_frame: the accumulated message size does not evaluate for a concrete buffer (size expression not modelled)")
                     if want_abort:
-                        ok = bool(exits) and all(_clean_abort(u) and not u.preads for u in exits)
+                        ok = bool(exits) and all(_clean_abort(u) and not X.payload_read(u, 100) for u in exits)
                     else:
-                        ok = bool(exits) and all((not u.aborted) and u.preads == 1 for u in exits)
+                        ok = bool(exits) and all((not u.aborted) and len(u.reads) == X.hdr_count(100) + 1 for u in exits)
                     ck.ob(R, rf, node.ast, ok, "1000 bytes buffered (%s, %d piece(s)) + 100-byte continuation (0x%02X) against max_message_size=%d: %s" % (kind, nchunks, h, limit, "aborted before the payload is read" if want_abort else "accepted (the limit itself is allowed)"),
                           construct="accumulated boundary h=0x%02X limit=%d pieces=%d ok=%s" % (h, limit, nchunks, ok))
         for limit, want_abort in ((99, True), (100, False)):
@@ -207,7 +210,7 @@ def rule_size(ck, rf, hm, consts):
             cs[X.BUF] = None
             seen = X.run_frame(rf, cs, h=0x82, m=100)
             exits = [u for _e, u in X.frame_states(seen, rf.cfg.exit)]
-            ok = bool(exits) and (all(_clean_abort(u) and not u.preads for u in exits) if want_abort else all((not u.aborted) and u.preads == 1 for u in exits))
+            ok = bool(exits) and (all(_clean_abort(u) and not X.payload_read(u, 100) for u in exits) if want_abort else all((not u.aborted) and len(u.reads) == X.hdr_count(100) + 1 for u in exits))
             ck.ob(R, rf, node.ast, ok, "100-byte unfragmented frame against max_message_size=%d: %s" % (limit, "aborted before the payload is read" if want_abort else "accepted"), construct="single boundary limit=%d ok=%s" % (limit, ok))
     # after decompression
     dec = ck.func(W, "_PerMessageDeflateDecompressor.decompress")
@@ -384,11 +387,11 @@ def rule_exc(ck, hm, rf, loop):
     for m in (5, 126, 127):
         seen = X.run_frame(rf, consts, h=0x82, m=m, assume={BUF_NONE: True})
         for node, c in rf.cfg.find(lambda x: q.is_call(x, "struct.unpack")):
-            fmt = c.args[0].value if c.args and isinstance(c.args[0], ast.Constant) else None
             for env, u in X.frame_states(seen, node):
+                fmt = X.fold_in(c.args[0], dict(consts, **env), None) if c.args else None
                 n += 1
                 t = X.arg_view(c.args[1], env, u) if len(c.args) > 1 else "?"
-                ok = isinstance(fmt, str) and t == ("hdr", struct.calcsize(fmt))
+                ok = isinstance(fmt, str) and t == ("read", struct.calcsize(fmt))
                 ck.ob(R, rf, c, ok, "struct.unpack(%r) operates on a read of exactly %s bytes (operand: %r)" % (fmt, struct.calcsize(fmt) if isinstance(fmt, str) else "?", t))
     return n
 
@@ -589,6 +592,7 @@ MUTANTS = [
     ("seeded C15-adv1: buffer becomes a list of chunks, limit still adds len(buffer) (fragments, not bytes)", _in(P13 + "._receive_frame", _buffer_as_chunk_list), "C15.size-limit"),
     ("limit applied to the 7-bit length code (check moved before the extended length is decoded)", _in(P13 + "._receive_frame", _limit_before_decode), "C15.size-limit"),
     ("inflate overflow only detected with context takeover", _in("_PerMessageDeflateDecompressor.decompress", replace_expr(lambda n: isinstance(n, ast.Attribute) and n.attr == "unconsumed_tail", lambda n: parse_expr("(self._decompressor is not None and decompressor.unconsumed_tail)"))), "C15.size-limit"),
+    ("seeded C15-adv4: control-frame length check moved below the extended-length decode and tests > 126", _in(P13 + "._receive_frame", lambda root: _ctl_check_after_decode(root)), "C15.abort-table"),
     ("size check adds the number of frames seen instead of the buffered bytes", _in(P13 + "._receive_frame", replace_expr(lambda n: q.is_call(n, "len") and "_fragmented_message_buffer" in _src(n), lambda n: parse_expr("len([self._fragmented_message_buffer])"))), "C15.size-limit"),
     ("size check assigns instead of accumulating (new_len = len(buffer))", _in(P13 + "._receive_frame", replace_stmt(lambda st: isinstance(st, ast.AugAssign) and "new_len" in _src(st.target), lambda st: [ast.Assign(targets=[ast.Name(id="new_len", ctx=ast.Store())], value=st.value)])), "C15.size-limit"),
     ("undo the G5-1/G5-2 repair: the broad handler of the receive loop removed", _in(P13 + "._receive_frame_loop", _drop_handler("Exception")), "C15.exc-abort"),
@@ -619,3 +623,15 @@ MUTANTS = [
     ("receive loop ignores client_terminated", _in(P13 + "._receive_frame_loop", replace_expr(lambda n: isinstance(n, ast.UnaryOp) and "client_terminated" in _src(n), lambda n: ast.Constant(value=True))), "C15.abort-stops"),
     ("callback errors only logged", _in("WebSocketProtocol._run_callback", remove_stmts(lambda st: _src(st) == "self._abort()")), "C15.abort-stops"),
 ]
+
+
+def _ctl_check_after_decode(root):
+    body = root.body
+    a = [i for i, st in enumerate(body) if isinstance(st, ast.If) and _src(st.test) == "opcode_is_control and payloadlen >= 126"]
+    d = [i for i, st in enumerate(body) if isinstance(st, ast.If) and _src(st.test) == "payloadlen < 126"]
+    if not a or not d or a[0] > d[0]:
+        return False
+    st = body.pop(a[0])
+    st.test = parse_expr("opcode_is_control and payloadlen > 126")
+    body.insert(d[0], st)
+    return True
